@@ -1805,3 +1805,38 @@ M2("c09-suspend-asked-first-without-second-look", "C09", "R5.policy-decision-bef
     {"file": "concurrency/executor.py", "old": _SUSPEND_FIRST_OLD, "new": _SUSPEND_FIRST_NEW},
     {"file": "concurrency/executor.py", "old": "                if self._suspend_exception and not decided:", "new": "                if self._suspend_exception:"}],
    desc="seed C09 as it was: a decided operation suspends")
+
+# ---- behind the hooks: bodies the trace models record as events and never look into (probes after round r8) ---------------------------------
+M("c07-timed-suspension-lands-in-the-untimed-status", "C07", "R2.transition-lands-where-its-caller-assumes", "concurrency/models.py",
+  "        self._status = BranchStatus.SUSPENDED_WITH_TIMEOUT\n        self._suspend_until = timestamp", "        self._status = BranchStatus.SUSPENDED\n        self._suspend_until = timestamp")
+M("c07-reset-lands-in-running", "C07", "R2.transition-lands-where-its-caller-assumes", "concurrency/models.py",
+  "        self._status = BranchStatus.PENDING\n        self._future = None\n        self._suspend_until = None", "        self._status = BranchStatus.RUNNING\n        self._future = None\n        self._suspend_until = None")
+M("c07-untimed-suspension-lands-in-pending", "C07", "R2.transition-lands-where-its-caller-assumes", "concurrency/models.py",
+  "        self._status = BranchStatus.SUSPENDED\n        self._suspend_until = None", "        self._status = BranchStatus.PENDING\n        self._suspend_until = None")
+M("c07-finished-branches-can-resume", "C07", "R2.transition-lands-where-its-caller-assumes", "concurrency/models.py",
+  "        return self._status is BranchStatus.SUSPENDED or (", "        return self._status is BranchStatus.COMPLETED or (")
+M("c09-fail-task-counts-a-success", "C09", "R3.booking-method-writes-its-own-counter", "concurrency/models.py",
+  "        with self._lock:\n            self.failure_count += 1", "        with self._lock:\n            self.success_count += 1")
+M("c09-complete-lands-in-failed", "C09", "R1.transition-lands-in-the-status-its-payload-is-read-from", "concurrency/models.py",
+  "        self._is_result_set = True\n        self._status = BranchStatus.COMPLETED", "        self._is_result_set = True\n        self._status = BranchStatus.FAILED")
+M("c10-query-consults-the-marked-set-only", "C10", "R6.read-only-query-asks-what-the-guard-asks", "state.py",
+  "            if operation_id in self._parent_done or self._has_completed_ancestor(\n                parent_id\n            ):", "            if operation_id in self._parent_done:")
+M("c12-ready-taken-for-pending", "C12", "R3.ready-runs-the-attempt", "state.py",
+  "        return op.status is OperationStatus.PENDING", "        return op.status in {OperationStatus.PENDING, OperationStatus.READY}")
+M("c02-invoke-error-not-copied-from-the-record", "C02", "R2.recorded-outcome-is-read-from-the-operations-own-details", "state.py",
+  "                error = invoke_details.error if invoke_details else None", "                error = None")
+M("c05-client-truncates-the-batch", "C05", "R5.client-passes-the-call-through", "lambda_service.py",
+  "                    Updates=cast(Any, [o.to_dict() for o in updates]),", "                    Updates=cast(Any, [o.to_dict() for o in updates[:100]]),")
+M("c05-client-presents-another-token", "C05", "R5.client-passes-the-call-through", "lambda_service.py",
+  "                    CheckpointToken=checkpoint_token,\n                    Updates", "                    CheckpointToken=client_token or checkpoint_token,\n                    Updates")
+M("c05-benign-client-comprehension-variable", "C05", "", "lambda_service.py",
+  "                    Updates=cast(Any, [o.to_dict() for o in updates]),", "                    Updates=cast(Any, [update.to_dict() for update in updates]),", expect="silent")
+
+
+def _state_output_key(src):
+    i = src.index("class StateOutput")
+    j = src.index('next_marker=data.get("NextMarker")', i)
+    return src[:j] + 'next_marker=data.get("Marker")' + src[j + len('next_marker=data.get("NextMarker")'):]
+
+
+M2("c20-pagination-marker-read-under-the-request-key", "C20", "R7.wire-keys-exist-in-the-service-model", [{"file": "lambda_service.py", "fn": _state_output_key}])
